@@ -16,6 +16,8 @@ pub const REGEX_POST: u32 = 9;
 pub const CUSTOM_PRE: u32 = 10;
 pub const REFERENCE: u32 = 11;
 pub const SITES: u32 = 12;
+/// added later: one point per node handled by a name, index, wildcard or slice selector
+pub const NODE: u32 = 12;
 
 static HOOK: AtomicPtr<()> = AtomicPtr::new(std::ptr::null_mut());
 
